@@ -265,7 +265,8 @@ def census_sentence(prop):
                              ('calls.json', 'RC', 'reviewed steps are still taken on every non-error path or at all, directly or through helpers'),
                              ('guards.json', 'RG', 'reviewed actions execute under exactly the reviewed set of tests (control dependence)'),
                              ('writes.json', 'RW', 'reviewed bookkeeping assignments are still performed'),
-                             ('codes.json', 'RE', 'reviewed error sites still pass their reviewed HTTP/2 error code')):
+                             ('codes.json', 'RE', 'reviewed error sites still pass their reviewed HTTP/2 error code'),
+                             ('inits.json', 'RI', 'reviewed configuration / limit fields are initialised from their reviewed source')):
         try:
             with open(os.path.join(base, fname)) as fh:
                 n = sum(1 for e in json.load(fh) if prop in e['props'])
